@@ -57,10 +57,12 @@ def main():
         # every third case goes through one long-lived runner object (a runner is documented to be reusable), the others through a fresh one
         ncase[0] += 1
         runner = shared_runner if ncase[0] % 3 == 0 else m.ScenarioRunnerNoTrade()
+        popov = 7.0e6 if ncase[0] % 5 == 0 else None
+        sopt = {"scale": "country"} if popov is None else {"scale": "country", "population": popov}
         try:
             with contextlib.redirect_stdout(io.StringIO()):
                 world, net_pop, net_pop_fed, results = runner.run_model_no_trade(
-                    title="agg", create_pptx_with_all_countries=False, scenario_option={"scale": "country"}, countries_list=list(lst),
+                    title="agg", create_pptx_with_all_countries=False, scenario_option=dict(sopt), countries_list=list(lst),
                     return_results=True)
         except BaseException as ex:  # noqa
             bad("Aggregate:exception:%s" % form, dict(case=c, exc=repr(ex)[:160]))
@@ -72,7 +74,12 @@ def main():
         if sorted(results.keys()) != sorted(names[x] for x in want_sel) or len(called) != len(set(called)):
             bad("EachOnce:%s" % form, dict(case=c, keys=sorted(results.keys())))
         want_tot = c["tot"] * 1e6
-        want_fed = c["fed2"] / 2 * 1e6
+        want_fed = c["fed2"] / 200 * 1e6
+        if popov is not None:
+            # the documented numeric override of a table column applies to every country of the run: each is simulated with, and
+            # therefore weighs, the overridden population
+            want_tot = popov * len(want_sel)
+            want_fed = sum(popov * min(1.0, ratio[x]) for x in want_sel)
         if abs(net_pop - want_tot) > 1e-6 * max(1, want_tot) or abs(net_pop_fed - want_fed) > 1e-6 * max(1, want_fed):
             bad("AggregateIsCappedMean:%s" % form, dict(case=c, got=[float(net_pop), float(net_pop_fed)], want=[want_tot, want_fed]))
         if not (0 <= net_pop_fed <= net_pop * (1 + 1e-12)):
